@@ -12,7 +12,7 @@
 
 struct ar_obj { int dummy; };
 static struct ar_obj g_ar_req, g_ar_req2, g_ar_pdu, g_ar_hdr, g_ar_cfg;
-static struct KSI_Integer_st g_ar_oldid = {0, 5};     /* a pooled integer: KSI_Integer_free leaves it alone */
+static struct KSI_Integer_st g_ar_oldid = {0, 5};     /* ref 0: KSI_Integer_free leaves it alone (like a pooled integer) */
 static KSI_AsyncHandle g_ar_confh;                     /* the separate configuration handle created for a multi-payload request */
 unsigned long long g_ar_reqid_set;                     /* request id stored into the request (0 = cleared) */
 int g_ar_getid_res, g_ar_setid_res, g_ar_transport_adds, g_ar_has_oldid;
@@ -29,7 +29,7 @@ int ar_getRequestId(const void *req, KSI_Integer **id) { if (g_ar_getid_res != K
 int ar_setRequestId(void *req, KSI_Integer *id) {
 	if (g_ar_setid_res != KSI_OK) return g_ar_setid_res;
 	g_ar_reqid_set = id == NULL ? 0 : id->value;
-	if (id != NULL && id->value >= 256) free(id);     /* the request owns the integer from now on (released with the request) */
+	if (id != NULL) KSI_Integer_free(id);             /* the request owns the integer from now on (released with the request) */
 	return KSI_OK;
 }
 int ar_getConfig(const void *req, KSI_Config **cfg) { if (nondet_bool()) return KSI_INVALID_ARGUMENT; *cfg = (KSI_Config *)&g_ar_cfg; return KSI_OK; }
